@@ -207,9 +207,9 @@ def _post(j, self, cname, name, args, kwargs, fa, fparams, fstate, exc,
 
 def _wrap_closure(fun, cname):
   @functools.wraps(fun)
-  def metric_fun(u, v, squared=False):
+  def metric_fun(*a, **kw):
     j = _state['judge']
-    r = fun(u, v, squared)
+    r = fun(*a, **kw)
     if j is not None and _state['enabled']:
       j.count('closure.calls')
       rr = np.asarray(r)
